@@ -288,6 +288,18 @@ def _loops_and_epsilon_greedy(rep, tier, seed):
             ctx.check(len(shim.choices[0][1]) == 2, "random-action-drawn-from-all-actions-of-the-row")
     e2.run("value_policy.epsilon_greedy_policy", eps_prog, fn="rl_blox.blox.value_policy.epsilon_greedy_policy")
 
+    def eps_prog_tuple(ctx):
+        """Q-table over a Tuple observation space (make_q_table supports it): the random action ranges over the LAST axis."""
+        shim = W.JaxRandomShim(True)
+        q_table = jnp.zeros((2, 3, 4))
+        obs = (int(sym_int("o1", 0, 1)), int(sym_int("o2", 0, 2)))
+        eps = sym_real("epsilon", 0, 1)
+        with overlay(vp, random=shim, greedy_policy=lambda q, o: 4242):
+            a = vp.epsilon_greedy_policy(q_table, obs, eps, ("key", 0))
+        if len(shim.choices) == 1:
+            ctx.check(len(shim.choices[0][1]) == 4, "random-action-drawn-from-all-actions-of-the-row")
+    e2.run("value_policy.epsilon_greedy_policy[tuple observation]", eps_prog_tuple, fn="rl_blox.blox.value_policy.epsilon_greedy_policy")
+
     def loop_prog(which, K, start):
         def prog(ctx):
             tr = L.run_dqn_family(ctx, which, K, start, symbolic=("learning_starts", "rolls"))
